@@ -157,11 +157,17 @@ pub fn run(ctx: &mut Ctx) -> Result<RunOut, Violation> {
     if ctx.mode == 1 {
         return run_concurrent(ctx);
     }
+    if ctx.mode == 2 {
+        return run_sequence(ctx);
+    }
     if focus == "C18" && ctx.tape.chance(1, 8) {
         return run_metadata(ctx);
     }
     if focus == "C18" && ctx.tape.chance(1, 12) {
         return run_huge(ctx);
+    }
+    if focus == "C18" && ctx.tape.chance(1, 4) {
+        return run_sequence(ctx);
     }
     let t = &mut ctx.tape;
     let len = gen_size(t);
@@ -870,4 +876,182 @@ fn run_huge(ctx: &mut Ctx) -> Result<RunOut, Violation> {
             Ok(RunOut { sig: mix(mix(0x4A6E, len), a ^ (via_serve as u64) << 60 ^ b), nontrivial: true })
         }
     }
+}
+
+/// Several exchanges, one after the other, over ONE ChunkedReadFile (clones share its state):
+/// direct streams, single-range and multi-range responses through serve(), with the file
+/// truncated between two of them. Whatever an instance remembers from an earlier stream must
+/// not change what a later one delivers.
+fn run_sequence(ctx: &mut Ctx) -> Result<RunOut, Violation> {
+    // Under C02 (mode 2): only responses through serve(), no truncation; violations are C02's.
+    let c02 = ctx.focus == "C02";
+    let prop: &'static str = if c02 { "C02" } else { "C18" };
+    let t = &mut ctx.tape;
+    let len: u64 = match t.draw(5) {
+        0 => 1 + t.draw(64) as u64,
+        1 => 1000 + t.draw(3096) as u64,
+        2 => 4096,
+        3 => 65536,
+        _ => 4097 + t.draw(70_000) as u64,
+    };
+    let seed = t.draw(u32::MAX) as u64;
+    let dir = scratch_dir();
+    let path = dir.join("q");
+    let wfile = write_file(&path, seed, len);
+    let crf = match Crf::new(File::open(&path).expect("open"), HeaderMap::new()) {
+        Ok(c) => c,
+        Err(e) => return violation(prop, "regular-file-refused", e.to_string()),
+    };
+    let n_steps = 2 + t.draw(2);
+    let trunc_before = if c02 { n_steps } else { 1 + t.draw(n_steps) }; // may be == n_steps: no truncation at all
+    let mut cur_len = len;
+    let mut history: Vec<String> = Vec::new();
+    let mut sig = mix(0x5E9, len.min(70_000) / 1000);
+    ctx.ev("sequence", len, n_steps as u64);
+    for step in 0..n_steps {
+        let t = &mut ctx.tape;
+        if step == trunc_before {
+            let to = match t.draw(4) {
+                0 => 0,
+                1 => cur_len / 2,
+                2 => cur_len.saturating_sub(1),
+                _ => t.below(cur_len + 1),
+            };
+            wfile.set_len(to).expect("truncate");
+            cur_len = to;
+            history.push(format!("truncate to {to}"));
+            ctx.stats.bump("fault_truncate_between_streams");
+        }
+        // 1..3 ranges for this step.
+        let kind = if c02 { 1 + t.draw(2) } else { t.draw(3) }; // 0 direct, 1 serve single, 2 serve multi
+        let nr = if kind == 2 { 2 + t.draw(2) as usize } else { 1 };
+        let mut ranges: Vec<(u64, u64)> = Vec::new();
+        for _ in 0..nr {
+            let (a, b) = match t.draw(5) {
+                0 => (0, len),
+                1 => (len - (1 + t.draw(10) as u64).min(len), len), // a tail
+                2 => (0, (1 + t.draw(10) as u64).min(len)),         // a head
+                _ => {
+                    let a = t.below(len);
+                    (a, (a + 1 + t.draw(40) as u64).min(len))
+                }
+            };
+            ranges.push((a, b));
+        }
+        sig = mix(sig, kind as u64 ^ (nr as u64) << 4);
+        let intact = ranges.iter().all(|r| r.1 <= cur_len);
+        let desc = format!("file of {len} bytes (now {cur_len}), history {history:?}, step {}: {} {ranges:?}", step + 1, ["get_range", "serve single range", "serve multi-range"][kind as usize]);
+        let (_f, waker) = crate::a_drain::new_waker();
+        let mut cx = Context::from_waker(&waker);
+        // Runs the step; returns (bytes or segments, ended cleanly, saw error).
+        let crf2 = crf.clone();
+        let rs = ranges.clone();
+        let r = catch(move || -> Result<(Vec<u8>, bool, bool, u16, Option<Vec<u8>>), String> {
+            let mut out = Vec::new();
+            let mut clean = false;
+            let mut failed = false;
+            let mut status = 0u16;
+            let mut ctype = None;
+            if kind == 0 {
+                let (a, b) = rs[0];
+                let mut s = crf2.get_range(a..b);
+                for _ in 0..(b - a + 8) {
+                    match s.as_mut().poll_next(&mut cx) {
+                        Poll::Ready(Some(Ok(mut d))) => {
+                            if d.remaining() == 0 {
+                                return Err("empty chunk".into());
+                            }
+                            let n = d.remaining();
+                            out.extend_from_slice(&d.copy_to_bytes(n));
+                        }
+                        Poll::Ready(Some(Err(_))) => {
+                            failed = true;
+                            break;
+                        }
+                        Poll::Ready(None) => {
+                            clean = true;
+                            break;
+                        }
+                        Poll::Pending => return Err("Pending".into()),
+                    }
+                }
+            } else {
+                let spec: Vec<String> = rs.iter().map(|(a, b)| format!("{}-{}", a, b - 1)).collect();
+                let req = http::Request::builder().method("GET").uri("/q").header("range", format!("bytes={}", spec.join(", "))).body(()).unwrap();
+                let resp = http_serve::serve(crf2, &req);
+                status = resp.status().as_u16();
+                ctype = resp.headers().get("content-type").map(|v| v.as_bytes().to_vec());
+                let mut body: std::pin::Pin<Box<SimBody>> = Box::pin(resp.into_body());
+                for _ in 0..200_000 {
+                    match http_body::Body::poll_frame(body.as_mut(), &mut cx) {
+                        Poll::Ready(Some(Ok(f))) => {
+                            let mut d = f.into_data().map_err(|_| "trailers".to_string())?;
+                            let n = d.remaining();
+                            out.extend_from_slice(&d.copy_to_bytes(n));
+                        }
+                        Poll::Ready(Some(Err(_))) => {
+                            failed = true;
+                            break;
+                        }
+                        Poll::Ready(None) => {
+                            clean = true;
+                            break;
+                        }
+                        Poll::Pending => return Err("Pending".into()),
+                    }
+                }
+            }
+            Ok((out, clean, failed, status, ctype))
+        });
+        let (out, clean, failed, status, ctype) = match r {
+            Err(p) => return violation(prop, "panic", format!("{p}; {desc}")),
+            Ok(Err(e)) => return violation(prop, "sequence-step", format!("{e}; {desc}")),
+            Ok(Ok(v)) => v,
+        };
+        ctx.ev("step", out.len() as u64, clean as u64 | (failed as u64) << 1 | (status as u64) << 8);
+        history.push(format!("{} {ranges:?} -> {} bytes, clean={clean}, failed={failed}", ["get_range", "serve", "serve-multi"][kind as usize], out.len()));
+        let is_multi = status == 206 && ctype.as_ref().map(|c| c.starts_with(b"multipart/")).unwrap_or(false);
+        // What was actually asked of the file: serve() may prefer a complete 200.
+        let intact = if kind != 0 && status == 200 { len <= cur_len } else { intact };
+        if intact {
+            if !clean || failed {
+                return violation(prop, "sequence-stream-failed", format!("the file still holds every requested byte but the stream did not end cleanly; {desc}"));
+            }
+            if is_multi {
+                let b = crate::mpart::boundary_of(ctype.as_ref().unwrap()).map_err(|e| Violation { prop, oracle: "sequence-multipart", msg: e })?;
+                let segs = vec![crate::simdata::Seg::Lit(out.clone())];
+                match crate::mpart::parse(&segs, seed, &b) {
+                    Err(e) => return violation(prop, "sequence-wrong-bytes", format!("multipart body does not hold the file's bytes: {e}; {desc}")),
+                    Ok(parts) => {
+                        let got: Vec<(u64, u64)> = parts.iter().map(|p| (p.a, p.b + 1)).collect();
+                        if got != ranges {
+                            return violation(prop, "sequence-wrong-parts", format!("parts {got:?}; {desc}"));
+                        }
+                    }
+                }
+            } else {
+                // One contiguous stretch: the single range, or the whole file when serve()
+                // preferred a complete 200.
+                let (a, b) = if kind != 0 && status == 200 { (0, len) } else { ranges[0] };
+                let expected: Vec<u8> = (a..b).map(|i| ebyte(seed, i)).collect();
+                if kind != 0 && !(status == 206 || status == 200) {
+                    return violation(prop, "unexpected-status", format!("status {status}; {desc}"));
+                }
+                if out != expected {
+                    let eq = out.iter().zip(&expected).take_while(|(x, y)| x == y).count();
+                    return violation(prop, "sequence-wrong-bytes", format!("delivered {} bytes, expected {} (first difference at {eq}); {desc}", out.len(), expected.len()));
+                }
+            }
+        } else {
+            // Truncated below a requested range end: the stream must fail, never end cleanly.
+            if clean {
+                return violation(prop, "sequence-stale-success", format!("the file was truncated below the requested range but the stream ended cleanly with {} bytes; {desc}", out.len()));
+            }
+        }
+    }
+    ctx.stats.bump(if c02 { "c02_file_entity_sequences_judged" } else { "c18_sequences_judged" });
+    if ctx.wants_sample() {
+        ctx.sample = Some(json!({"sequence": history}));
+    }
+    Ok(RunOut { sig, nontrivial: true })
 }
